@@ -26,6 +26,7 @@ type Clause struct {
 	// for callsite clauses
 	Callee string
 	Anchor string // assert at "text": source text identifying the line
+	Using  []string // lemma instances that are hypotheses of this clause only (step and assert-at clauses)
 	Ord    int
 }
 
@@ -372,7 +373,41 @@ func parseSpec(rest, file string, line int) *SpecFunc {
 func parseFuncDirective(fc *FuncContract, word, rest, file string, line int) {
 	mk := func(kind, r string, loop int) *Clause {
 		label, props, r2 := parseLabel(r)
-		return &Clause{Kind: kind, Label: label, Props: props, Src: r2, Expr: parseExprSrc(r2, file, line), Loop: loop, File: file, Line: line}
+		// "using L1(args); L2(args) : expr" - lemma instances that belong to this clause only
+		var using []string
+		if strings.HasPrefix(r2, "using ") {
+			if i := strings.Index(r2, " : "); i > 0 {
+				for _, u := range strings.Split(r2[len("using "):i], ";") {
+					if u = strings.TrimSpace(u); u != "" {
+						using = append(using, u)
+						if j := strings.Index(u, "("); j > 0 {
+							fc.Instantiate2 = append(fc.Instantiate2, strings.TrimSpace(u[:j]))
+						}
+					}
+				}
+				r2 = strings.TrimSpace(r2[i+3:])
+			}
+		}
+		return &Clause{Kind: kind, Label: label, Props: props, Src: r2, Expr: parseExprSrc(r2, file, line), Loop: loop, File: file, Line: line, Using: using}
+	}
+	if word == "at" && strings.HasPrefix(strings.TrimSpace(rest), "\"") {
+		// at "text" instantiate LABEL(args): a lemma instance assumed just before the anchored statement
+		r := strings.TrimSpace(rest)[1:]
+		q := strings.Index(r, "\"")
+		tail := ""
+		if q >= 0 {
+			tail = strings.TrimSpace(r[q+1:])
+		}
+		if q < 0 || !strings.HasPrefix(tail, "instantiate ") {
+			fatalf("%s:%d: bad at directive", file, line)
+		}
+		inst := strings.TrimSpace(strings.TrimPrefix(tail, "instantiate "))
+		fc.Clauses = append(fc.Clauses, &Clause{Kind: "atinst", Anchor: r[:q], Src: inst, Loop: -1, File: file, Line: line})
+		if i := strings.Index(inst, "("); i > 0 {
+			fc.Instantiate2 = append(fc.Instantiate2, strings.TrimSpace(inst[:i]))
+		}
+		fc.HasAssertAt = true
+		return
 	}
 	if word == "assert" && strings.HasPrefix(strings.TrimSpace(rest), "at \"") {
 		// assert at "text" [label] expr
@@ -417,6 +452,15 @@ func parseFuncDirective(fc *FuncContract, word, rest, file string, line int) {
 			fc.Clauses = append(fc.Clauses, &Clause{Kind: kind, Src: strings.TrimSpace(f[2]), Loop: n, File: file, Line: line})
 			if i := strings.Index(f[2], "("); i > 0 {
 				fc.Instantiate2 = append(fc.Instantiate2, strings.TrimSpace(f[2][:i]))
+			}
+			return
+		}
+		if f[1] == "step" && strings.HasPrefix(strings.TrimSpace(f[2]), "instantiate ") {
+			// loop N step instantiate LABEL(args): a lemma instance for the step clauses that follow it
+			inst := strings.TrimSpace(strings.TrimPrefix(strings.TrimSpace(f[2]), "instantiate "))
+			fc.Clauses = append(fc.Clauses, &Clause{Kind: "steplemma", Src: inst, Loop: n, File: file, Line: line})
+			if i := strings.Index(inst, "("); i > 0 {
+				fc.Instantiate2 = append(fc.Instantiate2, strings.TrimSpace(inst[:i]))
 			}
 			return
 		}
